@@ -19,6 +19,7 @@ NOTIFY = "rt::notify::Notify::notify"
 
 
 def F1(ctx):
+    """block_on: Pending -> Notify::wait -> poll again; Ready(v) -> return v; a single Notify backs waker and wait."""
     prog = ctx.prog
     fk = "future::block_on"
     fn = need_fn(ctx, "F1", fk)
@@ -119,6 +120,7 @@ def _handle_effects(prog, fk):
 
 
 def F2(ctx):
+    """Waker vtable handle balance through loom Arc: clone +1, wake notify/-1, wake_by_ref notify/0, drop -1; vtable order."""
     prog = ctx.prog
     want = {
         "future::clone_arc_raw": (1, 0, 0, "clone: +1 handle, no notification"),
@@ -156,6 +158,7 @@ def F2(ctx):
 
 
 def F3(ctx):
+    """AtomicWaker: lock pairing of register/take_waker on every path; failed registration wakes the new waker and yields; stores are unconditional; wake() wakes what take_waker returned."""
     prog = ctx.prog
     AW = "future::atomic_waker::AtomicWaker::"
     ACQ, TRY, REL = "rt::mutex::Mutex::acquire_lock", "rt::mutex::Mutex::try_acquire_lock", "rt::mutex::Mutex::release_lock"
